@@ -242,7 +242,7 @@ func VerifC14Select() {
 		return // bound (quick): two-network configurations are explored for IPv4 requests only
 	}
 	libver := uint(verifnd.Range("libver", 2, 1<<20)) // every version >= 2 takes the HKDF algorithm
-	w := uint32(1 + verifnd.U8("weight"))
+	w := uint32(verifnd.U8("weight")) // incl. zero
 	rnd := verifnd.Bool("randomize")
 	var specs []verifNetSpec
 	var strs []string
@@ -266,7 +266,9 @@ func VerifC14Select() {
 	for _, sp := range specs {
 		have = have || sp.v6 == v6
 	}
-	verifnd.Assert((err == nil) == have, "C14.select.succeeds-iff-family-configured")
+	// (the property allows "fails with an error" anywhere; the harness pins down when: no
+	// network of the family, or nothing to weigh)
+	verifnd.Assert((err == nil) == (have && w > 0), "C14.select.succeeds-iff-family-configured-and-weighted")
 	ip2, err2 := sel.Select(seed, 1, libver, v6)
 	verifnd.Assert((err == nil) == (err2 == nil), "C14.select.repeat.err")
 	if err == nil && err2 == nil && ip != nil && ip2 != nil && ip.IP() != nil && ip2.IP() != nil {
